@@ -72,6 +72,8 @@ func genCase(t *rapid.T, w *chain.World) (*chain.Program, []chain.Op, []chain.Fa
 		body = append(body, &chain.Stmt{Kind: "use", Hs: scripts[:1]})
 	}
 	body = append(body, st)
+	// a second route whose own handler does nothing at all (requested after the main request, see prop)
+	body = append(body, &chain.Stmt{Kind: "route", Path: "/quiet", Methods: []string{"GET"}, Style: 0, Main: w.NewScript("quiet")})
 	var faults []chain.Fault
 	if rapid.IntRange(0, 2).Draw(t, "faulty") == 0 {
 		for i, n := 0, rapid.IntRange(1, 2).Draw(t, "nfaults"); i < n; i++ {
@@ -246,6 +248,15 @@ func prop(t *rapid.T) {
 	if msg != "" {
 		t.Fatalf("%s\nfaults=%v\nscripts:\n%s", msg, faults, prog.Scripts())
 	}
+	// whatever the first request did to its writer (faults, hijack, panic), the requests after it - served with the
+	// recycled context - commit exactly once as well: a route whose handler writes nothing, and the same request again
+	for _, path := range []string{"/quiet", "/x"} {
+		ev.Eval()
+		if msg, _ := chain.CheckRequest(w, r, pm, "GET", path); msg != "" {
+			t.Fatalf("follow-up request after GET /x (faults=%v): %s\nscripts:\n%s", faults, msg, prog.Scripts())
+		}
+	}
+	ev.Class("follow-up-requests-on-the-recycled-context")
 }
 
 func TestProp(t *testing.T) { rapid.Check(t, prop) }
